@@ -158,9 +158,38 @@ def r5(ctx):
 
 
 def r6(ctx):
-    orc = {"true": ["true", "1", "yes"], "false": ["false", "0", "no"]}
-    tables.string_table(ctx, "util::str_to_bool", orc, "boolean-literal",
-                        value=lambda b: render(peel_result(b)))
+    """boolean literals: str_to_bool evaluated (finite interpreter) on the documented spellings in three letter cases, and on
+    texts that are no boolean"""
+    import interp
+    name = "util::str_to_bool"
+    h = ctx.anchor_hir(name)
+    pid = ctx.prog.fns[name]["params"][0]["id"]
+    want = {}
+    for w in ("true", "1", "yes"):
+        want[w] = interp.some(True)
+    for w in ("false", "0", "no"):
+        want[w] = interp.some(False)
+    cases = {}
+    for w, v in want.items():
+        for sp in {w, w.upper(), w.capitalize()}:
+            cases[sp] = v
+    for w in ("", "maybe", "2", "tru", "nope", "yes please", "00"):
+        cases[w] = interp.NONE
+    n = 0
+    for text, v in cases.items():
+        n += 1
+        try:
+            got = interp.Interp().run(h, {pid: text})
+        except interp.Undecided as e:
+            ctx.violation("boolean-literal/unreadable", ctx.where(name), "cannot evaluate str_to_bool on %r: %s" % (text, e))
+            break
+        ok = got == v
+        ctx.obligation(ok)
+        if not ok:
+            ctx.violation("boolean-literal/%s" % (text.lower() or "empty"), ctx.where(name),
+                          "str_to_bool(%r) is %r, documented %r" % (text, got, v))
+    ctx.covered("str_to_bool evaluated on the documented boolean spellings (three letter cases) and on non-boolean texts", n,
+                distinct_keys=list(cases), exhaustive=True)
 
 
 def r7(ctx):
